@@ -112,7 +112,7 @@ def c06(run: Run):
     from .props import crc_cases
     crc_cases(run)
     run.extra_cov["base_files"] = len(base) + len(none_files)
-    run.extra_cov["exhaustive"] = "all single-bit flips and truncations of each base file"
+    run.extra_cov["exhaustive_part"] = "all single-bit flips (thorough; every 3rd bit of large files in quick) and all truncations of each base file"
 
 
 # ----------------------------------------------------------------- C07
